@@ -12,7 +12,7 @@ func ruleC08(prog *Program, rep *Report) {
 	rulePoolNew(prog, rep, append(append([]feSpec{}, jsonFrontEnds...), senFrontEnds...)...)
 	ruleGlobalReturn(prog, rep, 10, "pretty", "oj", "sen", "alt", "gen", "jp", "asm", "")
 	rulePreRegister(prog, rep)
-	ruleLossyKey(prog, rep) // types that collide under one registry key are registered again on every Recompose: a map write during a shared call
+	ruleLossyKey(prog, rep)                         // types that collide under one registry key are registered again on every Recompose: a map write during a shared call
 	ruleFieldLoopBounds(prog, rep, []string{"alt"}) // a field the registration walk leaves out is registered lazily, during a shared Recompose
 	ruleFullRange(prog, rep, 4, "alt", "oj", "sen", "gen", "pretty", "asm", "jp", "")
 	// an instance taken from a pool was last used by another caller: whatever an entry does not reset is
